@@ -19,6 +19,7 @@ from fractions import Fraction
 from vp.core.acc import Acc
 from vp.flo.engine import run_case, all_events, prog_key
 from vp.flo.profcheck import ProfileCheck, evaluate
+from vp.flo import clonegrid as CG
 
 PROPERTY = "C11"
 LEVEL = "exploration"
@@ -112,13 +113,36 @@ SEQ = ProfileCheck(SEQ_PROFILE, [], seq_nt, seq_classes, quick=(6, 120), thoroug
 def plan(tier):
     shards = [{"part": "grid", "i": i, "n": 4} for i in range(4)]
     shards += [dict(s, part="seq") for s in SEQ.plan(tier)]
+    shards += [{"part": "clone", "i": i, "n": 2} for i in range(2)]
     return shards
+
+
+def clone_cases():
+    """timeout / repeat written inside a framer that runs as a clone (its own clocks, not the moot original's)"""
+    out = []
+    for P in TICKS:
+        for cond in [["timeout", t] for t in TOUTS[::2]] + [["repeat", n] for n in REPS[:5]]:
+            for k, (tag, delay) in enumerate(itertools.product(CG.TAGS, (0, 3))):
+                if (len(out) + k) % 2 and P not in ("0.125", "0.1"):
+                    continue
+                out.append({"P": P, "cond": cond, "tag": tag, "delay": delay, "bound": 26})
+    return out
 
 
 def work(shard, seed, tier):
     if shard["part"] == "seq":
         return SEQ.work(dict(shard, part="rand"), seed, tier)
     acc = Acc()
+    if shard["part"] == "clone":
+        cases = [c for j, c in enumerate(clone_cases()) if j % shard["n"] == shard["i"]]
+        for j, case in enumerate(cases):
+            fails, tr, info = CG.check(case)
+            acc.case(key=("clone", repr(case)), nontrivial=True, classes=["clone-" + case["cond"][0]],
+                     sample={"script": tr.get("text"), "expected_leave": info.get("exp")} if j % 97 == 0 else None)
+            for sig, what in fails:
+                acc.fail(sig, what, {"clone": case})
+        acc.note("timeout/repeat inside cloned framers: %d (tick period, timeout|repeat, tag, delay) cases enumerated" % len(clone_cases()))
+        return acc
     k = 0
     for P in TICKS:
         for kind, vals in (("timeout", TOUTS), ("repeat", REPS)):
@@ -140,6 +164,8 @@ def work(shard, seed, tier):
 
 
 def replay(case):
+    if "clone" in case:
+        return CG.check(case["clone"])[0]
     if "prog" in case:
         return SEQ.replay(case)
     fails, r = check_single(case)
@@ -150,7 +176,8 @@ RULE = ("(1) exhaustive grid tick period {1/16, 1/8, 0.05, 0.1, 0.2, 0.25, 0.3} 
         "repeat N in 0..6 on a single frame: leave tick and per-tick elapsed/recurred vs exact arithmetic; (2) Hypothesis frame sequences with "
         "timeouts/repeats/elapsed/recurred needs, nesting and forced re-entry on the same tick periods vs the exact-fraction reference interpreter. "
         "non-trivial = decimal tick period or T not a multiple of the tick (grid); decimal tick or forced re-entry with a taken transition "
-        "(sequences); distinct = distinct configuration / program")
+        "(sequences); (3) timeout T / repeat N written inside a framer that runs as a clone (`aux moot as mine|tag`, entered after 0 or 3 ticks) on the "
+        "same tick periods: leave tick relative to the clone's own entry vs exact arithmetic. distinct = distinct configuration / program")
 ASSUMPTIONS = ["exact arithmetic on the decimal values written in the script is the ideal; evaluation n happens n ticks after the outline last changed",
                "elapsed values are compared with tolerance 1e-9 (ioflo rounds elapsed to nanoseconds, fix 96a80d9-lineage)"]
 META = {"level": LEVEL,
